@@ -22,11 +22,22 @@ pub enum Op {
     FetchAdd { loc: u8, add: u64, ord: Ord_ },
     Fence { ord: Ord_ },
     /// `loop { v = load; if v != 0 { break v } yield_now() }` (C18)
-    Await { loc: u8, ord: Ord_, spin_hint: bool },
+    Await {
+        loc: u8,
+        ord: Ord_,
+        spin_hint: bool,
+        /// the loop exits when the value read is >= min (1: any non-zero value)
+        #[serde(default = "one")]
+        min: u64,
+    },
     CellRead { c: u8 },
     CellWrite { c: u8 },
     /// atomic.with_mut (needs exclusive access: a non-atomic write of the atomic's memory)
     UnsyncLoad { loc: u8 },
+}
+
+fn one() -> u64 {
+    1
 }
 
 #[derive(Clone, Debug, PartialEq, Eq, Hash, Serialize, Deserialize)]
@@ -73,7 +84,7 @@ impl Op {
             Op::Cas { loc, exp, new, succ, fail } => format!("r={}.cas({}->{},{},{})", l(loc), exp, new, succ.s(), fail.s()),
             Op::FetchAdd { loc, add, ord } => format!("r={}.fadd({},{})", l(loc), add, ord.s()),
             Op::Fence { ord } => format!("fence({})", ord.s()),
-            Op::Await { loc, ord, spin_hint } => format!("r=await{}({}!=0,{})", if *spin_hint { "_spin" } else { "" }, l(loc), ord.s()),
+            Op::Await { loc, ord, spin_hint, min } => format!("r=await{}({}{},{})", if *spin_hint { "_spin" } else { "" }, l(loc), if *min <= 1 { "!=0".to_string() } else { format!(">={}", min) }, ord.s()),
             Op::CellRead { c } => format!("c{}.read", c),
             Op::CellWrite { c } => format!("c{}.write", c),
             Op::UnsyncLoad { loc } => format!("r={}.unsync_load", l(loc)),
@@ -306,6 +317,27 @@ pub fn classics() -> Vec<(String, Prog)> {
             out.push((format!("IRIW+f[{},{}]", f1.s(), f2.s()), Prog { nlocs: 2, pre: vec![], threads: vec![vec![st(0, 1, Rlx)], vec![st(1, 2, Rlx)], vec![ld(0, Rlx), f(f1), ld(1, Rlx)], vec![ld(1, Rlx), f(f2), ld(0, Rlx)]] }));
         }
     }
+    // relay thread with a two-sided fence (reads relaxed before it, stores relaxed after it): the fence
+    // must forward what it acquired; consumer acquires by load or by fence
+    for &f1 in &FENCE_ORDS {
+        for &lo in &LOAD_ORDS {
+            out.push((format!("relay+f[{},{}]", f1.s(), lo.s()), Prog { nlocs: 3, pre: vec![], threads: vec![vec![], vec![st(0, 1, Rlx), st(1, 2, Rel)], vec![ld(1, Rlx), f(f1), st(2, 3, Rlx)], vec![ld(2, lo), ld(0, Rlx)]] }));
+        }
+        for &f2 in &FENCE_ORDS {
+            out.push((format!("relay+f+f[{},{}]", f1.s(), f2.s()), Prog { nlocs: 3, pre: vec![], threads: vec![vec![], vec![st(0, 1, Rlx), st(1, 2, Rel)], vec![ld(1, Rlx), f(f1), st(2, 3, Rlx)], vec![ld(2, Rlx), f(f2), ld(0, Rlx)]] }));
+        }
+    }
+    // release sequence continued by an RMW of another thread, in every RMW ordering, swap and fetch_add
+    for &ro in &RMW_ORDS {
+        for &lo in &LOAD_ORDS {
+            for &so in &STORE_ORDS {
+                out.push((format!("relseq-swap[{},{},{}]", so.s(), ro.s(), lo.s()), Prog { nlocs: 2, pre: vec![], threads: vec![vec![], vec![st(1, 1, Rlx), st(0, 2, so)], vec![Op::Swap { loc: 0, val: 3, ord: ro }], vec![ld(0, lo), ld(1, Rlx)]] }));
+                out.push((format!("relseq-fadd[{},{},{}]", so.s(), ro.s(), lo.s()), Prog { nlocs: 2, pre: vec![], threads: vec![vec![], vec![st(1, 1, Rlx), st(0, 2, so)], vec![Op::FetchAdd { loc: 0, add: 64, ord: ro }], vec![ld(0, lo), ld(1, Rlx)]] }));
+            }
+        }
+        // two RMWs in the sequence
+        out.push((format!("relseq-2rmw[{}]", ro.s()), Prog { nlocs: 2, pre: vec![], threads: vec![vec![ld(0, Acq), ld(1, Rlx)], vec![st(1, 1, Rlx), st(0, 2, Rel)], vec![Op::FetchAdd { loc: 0, add: 64, ord: ro }], vec![Op::FetchAdd { loc: 0, add: 128, ord: Rlx }]] }));
+    }
     for &ro in &RMW_ORDS {
         out.push((format!("rmw-atomicity[{}]", ro.s()), Prog { nlocs: 1, pre: vec![], threads: vec![vec![Op::Swap { loc: 0, val: 2, ord: ro }], vec![st(0, 1, Rlx)]] }));
         out.push((format!("2fadd[{}]", ro.s()), Prog { nlocs: 1, pre: vec![], threads: vec![vec![Op::FetchAdd { loc: 0, add: 64, ord: ro }], vec![Op::FetchAdd { loc: 0, add: 128, ord: ro }], vec![Op::FetchAdd { loc: 0, add: 256, ord: ro }]] }));
@@ -368,9 +400,9 @@ fn exec(ops: &[Op], tid: u8, base_pc: u8, sh: &Shared, log: &Mutex<IterLog>) -> 
                 fence(ord.std());
                 u64::MAX
             }
-            Op::Await { loc, ord, spin_hint } => loop {
+            Op::Await { loc, ord, spin_hint, min } => loop {
                 let v = sh.locs[loc as usize].load(ord.std());
-                if v != 0 {
+                if v >= min {
                     break ret(v, &mut r);
                 }
                 if spin_hint {
